@@ -310,6 +310,24 @@ func registerMisc(e *Engine) {
 		in.store(dst.V, in.deepCopy(val).(IfaceV).V)
 		return nilError()
 	}
+	// unique.Make: canonical handles (netip.Addr zones): equal values share one
+	// pointer, kept in a per-path table.
+	I["unique.Make"] = func(in *Interp, fn *ssa.Function, a []Value) Value {
+		for _, e := range in.uniques {
+			if eq := in.valueEqSafe(e.val, a[0]); eq != nil && eq.IsTrue() {
+				return StructV{e.loc}
+			}
+		}
+		t := fn.Signature.Params().At(0).Type()
+		l := in.newLoc(t)
+		in.storeLoc(l, a[0])
+		in.uniques = append(in.uniques, uniqueEntry{val: a[0], loc: l})
+		return StructV{l}
+	}
+	I["(unique.Handle).Value"] = func(in *Interp, fn *ssa.Function, a []Value) Value {
+		h := a[0].(StructV)
+		return in.load(h[0])
+	}
 	I["os.Getenv"] = func(in *Interp, fn *ssa.Function, a []Value) Value { return StrV{} }
 	I["os.Hostname"] = func(in *Interp, fn *ssa.Function, a []Value) Value {
 		return TupleV{StrV{S: "host"}, nilError()}
@@ -393,4 +411,23 @@ func (in *Interp) clockNow() *smt.Term {
 		in.now = t
 	}
 	return in.now
+}
+
+type uniqueEntry struct {
+	val Value
+	loc *Loc
+}
+
+// valueEqSafe is valueEq that returns nil instead of aborting on shapes it cannot compare.
+func (in *Interp) valueEqSafe(x, y Value) (t *smt.Term) {
+	defer func() {
+		if r := recover(); r != nil {
+			if _, ok := r.(unsupported); ok {
+				t = nil
+				return
+			}
+			panic(r)
+		}
+	}()
+	return in.valueEq(x, y)
 }
